@@ -252,8 +252,11 @@ class C01(Machine):
                         ops.append({"op": "query", "obj": i, "name": qn,
                                     "kw": kw})
             else:
+                # drop the object and build a new one -- from other inputs,
+                # or from the very same inputs in the same directory
                 ops.append({"op": "discard", "obj": i,
-                            "ms": o.randrange(10 ** 9)})
+                            "ms": build_ms[i] if o.random() < 0.5
+                            else o.randrange(10 ** 9)})
         return {"property": self.pid, "seed": seed, "run": idx,
                 "config": {"lru": lru, "layer": "history"}, "ops": ops}
 
